@@ -9,6 +9,7 @@ import TdfProofs.Lemmas.Dec
 import TdfProofs.Lemmas.Entry
 import TdfProofs.Lemmas.Data2D
 import TdfProofs.Lemmas.Compact
+import TdfProofs.Lemmas.ReadBack
 namespace Tdf.C12
 
 /-- NI for every decoder program: if `c` decodes to `a` with care mask `m`, every `c'` that agrees
@@ -134,6 +135,66 @@ theorem file_table (l : Lay) (ok : l.Ok) :
     rw [e2, ← e1]; exact hr
   obtain ⟨m, hm, hs⟩ := scramble decTable _ (h, l.table) rt
   exact ⟨h, m, hm, fun c' d hc ha => (hs c' d hc ha).2⟩
+
+/-- WHOLE FILES, THROUGH TO THE CONTENT OF A BLOCK: take any well-formed file and any valid block `b`
+    stored in it. There are masks `mt` (header + jump table) and `mb` (the block's own bytes) such that
+    EVERY file made of
+      * a header and table that agree with the original on `mt` (reserved header words, reserved entry
+        words, comment tails: anything),
+      * ANY bytes of the right length where the blocks stored before `b` were,
+      * block bytes that agree with `b`'s encoding on `mb` (padding words, label tails, the 256-byte pad
+        of platform records: anything),
+      * ANYTHING after it,
+    opens with the same table and `get_block(type)` returns exactly `b`. What a file yields for a block
+    depends on nothing but the care bytes of its header, its table and that block. -/
+theorem file_block (l : Lay) (ok : l.Ok) (pre post : List LBlock) (x : LBlock) (b : Wire.AnyBlock)
+    (hbs : l.bs = pre ++ x :: post) (hpre : ∀ y ∈ pre, y.typ ≠ x.typ)
+    (hv : b.valid = true) (htyp : x.typ = b.typ) (hfmt : x.fmt = b.fmt) (hpl : x.payload = b.enc) :
+    ∃ (mt mb : List Bool), mt.length = (l.hdr ++ l.table.flatMap Entry.enc).length ∧ mb.length = b.enc.length ∧
+      ∀ (t' dpre' cx' dpost' : Bytes),
+        t'.length = (l.hdr ++ l.table.flatMap Entry.enc).length →
+        D.AgreeOn mt (l.hdr ++ l.table.flatMap Entry.enc) t' →
+        dpre'.length = (dataOf pre).length →
+        cx'.length = b.enc.length → D.AgreeOn mb b.enc cx' →
+        ∃ s', openFile (t' ++ (dpre' ++ (cx' ++ dpost'))) = some s' ∧ s'.entries = l.table ∧
+              getBlock s' x.typ = some b := by
+  obtain ⟨h, mt, hmt, hft⟩ := file_table l ok
+  obtain ⟨k, d, hk, hd, _⟩ := decoder_roundtrip b hv []
+  have rt : ∀ rest, d.run (b.enc ++ rest) = some (b, rest) := by
+    intro rest
+    obtain ⟨k', d', hk', hd', hrun'⟩ := decoder_roundtrip b hv rest
+    have ek : k' = k := by rw [hk] at hk'; injection hk' with e; exact e.symm
+    subst ek
+    have ed : d' = d := by rw [hd] at hd'; injection hd' with e; exact e.symm
+    subst ed
+    exact hrun'
+  obtain ⟨mb, hmb, hsb⟩ := scramble d b.enc b rt
+  refine ⟨mt, mb, hmt, hmb, ?_⟩
+  intro t' dpre' cx' dpost' ht' hat hdpre hcx hab
+  have hopen := hft t' (dpre' ++ (cx' ++ dpost')) ht' hat
+  have htl : (l.hdr ++ l.table.flatMap Entry.enc).length = tableStart l.n := by
+    have htn : l.table.length = l.n := by simp [Lay.table, ok.count]
+    simp [ok.hdr_len, table_bytes_length l.table ok.valid, htn, tableStart]
+  refine ⟨⟨t' ++ (dpre' ++ (cx' ++ dpost')), t' ++ (dpre' ++ (cx' ++ dpost')), l.table, h.nEntries.toNat⟩, ?_, rfl, ?_⟩
+  · simp only [openFile, hopen]
+  · have hfind : (l.table).find? (fun y => y.typ == x.typ) = some (liveEntry (tableStart l.n + (dataOf pre).length) x) := by
+      simp only [Lay.table, hbs]
+      exact find_table_at _ _ pre post x l.fs x.typ rfl hpre
+    simp only [getBlock, entryByType, hfind]
+    simp only [liveEntry]
+    rw [htyp, hk]
+    simp only [hfmt, hd]
+    have hpay : payloadOf ⟨t' ++ (dpre' ++ (cx' ++ dpost')), t' ++ (dpre' ++ (cx' ++ dpost')), l.table, h.nEntries.toNat⟩
+        ⟨b.typ, b.fmt, ((tableStart l.n + (dataOf pre).length : Nat) : Int), (x.payload.length : Int), x.cdate, x.mdate, x.adate, x.comment⟩ = cx' := by
+      simp only [payloadOf, readAt, Int.toNat_natCast]
+      have hl : (t' ++ dpre').length = tableStart l.n + (dataOf pre).length := by
+        rw [List.length_append, ht', htl, hdpre]
+      rw [← List.append_assoc, ← hl, List.drop_left]
+      rw [hpl, ← hcx, List.take_left]
+    rw [hpay]
+    have := (hsb cx' [] hcx hab).2
+    simp only [List.append_nil] at this
+    rw [this]; rfl
 
 /-- the masks are not trivially "all care": text fields really ignore what follows the first NUL,
     and skipped words really are skipped -/
